@@ -144,6 +144,7 @@ void harness_timeout(void)
 	tm_fire(&TM[0]);
 	struct sent *a = answer_to(&A, 7);
 	CHECK(answers_to(&A, 7) == 1 && a && a->is_error && !a->has_result, "C14.expiry_answers_timeout_error_exactly_once");
+	CHECK(count_kind(&O, K_RESPONSE) == 0 && count_kind(&C, K_RESPONSE) == 0 && count_kind(&A, K_RESPONSE) == 1, "C02.response_only_to_the_requester");
 	int r = reply(&O, LOG[k].id_str, 0, 3);     /* late reply */
 	CHECK(r >= 0 && answers_to(&A, 7) == 1, "C14.late_reply_is_discarded_without_effect");
 	CHECK(timers_alive() == 0, "C07.request_timer_destroyed_after_timeout");
@@ -163,6 +164,7 @@ void harness_owner_leaves(void)
 	dead_peer = &O;
 	struct sent *a = answer_to(&A, 7);
 	CHECK(answers_to(&A, 7) == 1 && a && a->is_error, "C03.owner_disconnect_answers_shutdown_error_once");
+	CHECK(count_kind(&A, K_RESPONSE) == 1, "C02.response_only_to_the_requester");
 	CHECK(count_kind(&C, K_RESPONSE) == 0, "C03.caller_without_id_receives_nothing");
 	CHECK(timers_alive() == 0, "C07.request_timers_destroyed_when_owner_leaves");
 	CHECK(element_table_get("s") == 0, "C05.owned_elements_disappear");
@@ -247,6 +249,7 @@ void harness_route_faults(void)
 	else {
 		struct sent *a = answer_to(&A, 7);
 		CHECK(first == 1 && a && a->is_error, "C03.failed_routing_answered_with_one_error");
+		CHECK(count_kind(&O, K_RESPONSE) == 0 && count_kind(&C, K_RESPONSE) == 0, "C02.response_only_to_the_requester");
 		/* whatever is still armed may fire: there must be no second answer */
 		for (int i = 0; i < ntm; i++) if (!TM[i].destroyed && TM[i].armed) tm_fire(&TM[i]);
 		CHECK(answers_to(&A, 7) == 1, "C03.no_second_answer_after_failed_routing");
@@ -370,6 +373,52 @@ void harness_self_request_bystander(void)
 	int r = reply(&O, LOG[k].id_str, 0, w);
 	struct sent *a = answer_to(&O, 7);
 	CHECK(r >= 0 && answers_to(&O, 7) == 1 && a && a->has_result && a->value_int == w, "C03.answer_independent_of_bystander_disconnect");
+	CHECK(timers_alive() == 0, "C07.request_timer_destroyed_after_reply");
+	WITNESS_END();
+}
+
+/* ================================================================== the owner's reply payload may be any JSON value (-DPAYLOAD: 0 null, 1 false, 2 empty string,
+ * 3 empty object, 4 zero), as result or as error: it is a response object - relayed to the caller unchanged, never answered */
+#ifndef PAYLOAD
+#define PAYLOAD 0
+#endif
+void harness_reply_payload_types(void)
+{
+	setup();
+	int v = (int)nd_range(0, 999);
+	int k = do_set(&A, 7, v);
+	__CPROVER_assume(k >= 0);
+	scn_build_begin();
+	cJSON *m = cJSON_CreateObject();
+	cJSON_AddItemToObject(m, "id", cJSON_CreateString(LOG[k].id_str));
+#if PAYLOAD == 0
+	cJSON *pl = cJSON_CreateNull(); int want = cJSON_NULL;
+#elif PAYLOAD == 1
+	cJSON *pl = cJSON_CreateFalse(); int want = cJSON_False;
+#elif PAYLOAD == 2
+	cJSON *pl = cJSON_CreateString(""); int want = cJSON_String;
+#elif PAYLOAD == 3
+	cJSON *pl = cJSON_CreateObject(); int want = cJSON_Object;
+#else
+	cJSON *pl = mknumber(0); int want = cJSON_Number;
+#endif
+#ifdef REPLY_ERROR
+	cJSON_AddItemToObject(m, "error", pl);
+#else
+	cJSON_AddItemToObject(m, "result", pl);
+#endif
+	scn_build_end();
+	int before = nlog;
+	int r = dispatch(&O, m);
+	CHECK(r >= 0, "C03.reply_keeps_owner_connection");
+	int to_owner = 0; for (int i = before; i < nlog; i++) if (LOG[i].to == &O) to_owner++;
+	CHECK(to_owner == 0, "C02.notifications_and_responses_are_never_answered");
+	struct sent *a = answer_to(&A, 7);
+#ifdef REPLY_ERROR
+	CHECK(answers_to(&A, 7) == 1 && a && a->is_error && !a->has_result && a->payload_type == want, "C03.caller_gets_owner_payload_unchanged_exactly_once");
+#else
+	CHECK(answers_to(&A, 7) == 1 && a && a->has_result && !a->is_error && a->payload_type == want, "C03.caller_gets_owner_payload_unchanged_exactly_once");
+#endif
 	CHECK(timers_alive() == 0, "C07.request_timer_destroyed_after_reply");
 	WITNESS_END();
 }
